@@ -97,11 +97,11 @@ def proof_items():
         ProofItem(cm.mapspec_input_names, gen=_ms_gen),
         ProofItem(cm.mapspec_output_names, gen=_ms_gen),
         ProofItem(cm.get_output_dim, gen=_odim_gen),
-        ProofItem(cm.mapspec_input_indices, gen=_ms_gen, bounded_only=True,
-                  why_bounded="set comprehension with two generators"),
+        ProofItem(cm.arrayspec_indices, gen=_as_gen(False)),
+        ProofItem(cm.mapspec_output_indices, gen=_ms_gen),
+        ProofItem(cm.mapspec_input_indices, gen=_ms_gen),
         ProofItem(cm.mapspec_output_key, gen=_okey_gen),
-        ProofItem(cm.mapspec_external_indices, gen=_ms_gen, bounded_only=True,
-                  why_bounded="filter by membership in a set built by a two-generator comprehension"),
+        ProofItem(cm.mapspec_external_indices, gen=_ms_gen),
         # which element of every input the call with linear index l receives
         ProofItem(cm.mapspec_input_keys, gen=_okey_gen),
         # what shape() rejects: surplus / missing arrays, rank mismatch, internal shape for a non-output
